@@ -279,13 +279,68 @@ theorem denL_mul {a b e : Expr} (h : mul a b = .ok e) (σ : Val) :
 
 theorem denL_truediv {a b e : Expr} (h : truediv a b = .ok e) (σ : Val) :
     denL card leaf e σ = denL card leaf a σ / denL card leaf b σ := by
-  sorry
+  unfold truediv at h
+  have base : ∀ {a : Expr},
+      (match b with
+        | .one => Except.ok a
+        | .frac n' d' => do mkFrac (← mul a d') n'
+        | _ => mkFrac a b) = Except.ok e → denL card leaf e σ = denL card leaf a σ / denL card leaf b σ := by
+    intro a h
+    cases b with
+    | one => simp at h; cases h; simp
+    | frac n' d' =>
+      simp only [] at h
+      obtain ⟨m, hm, hc⟩ := bind_ok h
+      rw [denL_mkFrac hc, denL_mul hm]
+      simp only [TrsoAux.denL_frac, div_div_eq_mul_div]
+    | _ => exact denL_mkFrac h σ
+  cases a with
+  | zero => simp only [] at h; split at h <;> cases h; simp
+  | frac n d =>
+    have fr : ∀ {b : Expr}, (do mkFrac n (← mul d b)) = Except.ok e →
+        denL card leaf e σ = denL card leaf n σ / denL card leaf d σ / denL card leaf b σ := by
+      intro b h
+      obtain ⟨m, hm, hc⟩ := bind_ok h
+      rw [denL_mkFrac hc, denL_mul hm, div_div]
+    cases b with
+    | one => simp at h; cases h; simp
+    | frac n' d' =>
+      simp only [] at h
+      obtain ⟨x, hx, h⟩ := bind_ok h
+      obtain ⟨y, hy, hc⟩ := bind_ok h
+      rw [denL_mkFrac hc, denL_mul hx, denL_mul hy]
+      simp only [TrsoAux.denL_frac]
+      rw [div_div_div_eq]
+    | _ => rw [fr h]; simp
+  | _ => exact base h
+
+theorem TrsoAux.sumVars_zero (card : Name → Nat) (xs : List Name) (σ : Val) :
+    sumVars card xs (fun _ => (0 : Rat)) σ = 0 := by
+  induction xs generalizing σ with
+  | nil => rfl
+  | cons x xs ih =>
+    simp only [sumVars]
+    have : sumVars card xs (fun _ => (0 : Rat)) = fun _ => 0 := funext ih
+    rw [this, sumVar_eq_sum]
+    simp
 
 /-- `Sum.safe(e, ranges)` without simplification denotes the iterated sum over the (sorted, duplicate-free) ranges -/
 theorem denL_sumSafe_false (e : Expr) (rs : List Var) (σ : Val) :
     denL card leaf (sumSafe e rs false) σ =
       sumVars card ((sortVars rs).map (·.name)) (fun τ => denL card leaf e τ) σ := by
-  sorry
+  unfold sumSafe
+  simp only
+  by_cases h : (sortVars rs).isEmpty = true
+  · rw [if_pos h]
+    have : sortVars rs = [] := List.isEmpty_iff.mp h
+    rw [this]; rfl
+  · rw [if_neg h]
+    by_cases hz : isZero e = true
+    · rw [if_pos hz]
+      have : e = .zero := TrsoAux.isZero_iff.mp hz
+      subst this
+      simp [TrsoAux.sumVars_zero]
+    · rw [if_neg hz]; simp
 
 /-! ### Fraction.simplify -/
 
